@@ -3,7 +3,8 @@
 
 A loop-by-loop model of the Householder QR ported from LAPACK (`ZGEQR2`, `ZUNG2R`, `ZLARFG`, `ZLARF`) for a real scalar
 `value_type` (`math::adjoint` is the identity, `math::norm` is `std::abs`, `detail::real` is the identity).  It is used
-for the exact correspondence only (no theorem in `Properties/C16.lean` is about it: QR is V-grade there); `sqrt` is a
+for the exact correspondence and is the subject of the theorems of `Properties/C16b.lean` (reflector lemma, `A = Q·R`,
+least-squares / minimum-norm `solve`, under the hypothesis that `sqrt` returns exact roots); `sqrt` is a
 parameter (DESIGN.md §2.1), the driver passes `Amgcl.rsqrt`.
 
 All matrices live in flat buffers addressed with explicit strides, as in the C++ code:
